@@ -196,30 +196,41 @@ pub fn render_alias(into: &[String], from: &[String], f: &Fmt, blank_lines: bool
         s.push_str("# romanisation");
         s.push_str(nl);
     }
-    s.push_str("@into");
-    s.push_str(nl);
-    for l in into {
-        s.push_str(f.indent);
-        s.push_str(l);
+    let section = |s: &mut String, header: &str, lines: &[String], r: &mut Rng| {
+        s.push_str(header);
         s.push_str(nl);
-    }
-    if blank_lines {
-        s.push_str(nl);
-    }
-    s.push_str("@from");
-    s.push_str(nl);
-    for l in from {
-        s.push_str(f.indent);
-        s.push_str(l);
-        s.push_str(nl);
+        for (i, l) in lines.iter().enumerate() {
+            if i > 0 && r.chance(1, 6) {
+                s.push_str(f.indent);
+                s.push_str("# note");
+                s.push_str(nl);
+            }
+            s.push_str(f.indent);
+            s.push_str(l);
+            s.push_str(nl);
+        }
+    };
+    // both sections, in either order; an empty section may be left out altogether
+    let from_first = r.chance(1, 4);
+    let skip_empty = r.chance(1, 3);
+    for k in 0..2 {
+        let is_into = (k == 0) != from_first;
+        let (header, lines) = if is_into { ("@into", into) } else { ("@from", from) };
+        if lines.is_empty() && skip_empty {
+            continue;
+        }
+        section(&mut s, header, lines, r);
+        if k == 0 && blank_lines {
+            s.push_str(nl);
+        }
     }
     s
 }
 
 // ------------------------------------------------------------------ models
 
-const NAMES: [&str; 16] = [
-    "Grimms Law", "Verners Law", "Voice", "Raise", "Glottal Deletion", "Cluster Simplification", "Hap(lo)logy", "Low Vowel Reduction", "Stress Shift",
+const NAMES: [&str; 20] = [
+    "1st shift", "*special", "a  b", "Voice (early)", "Grimms Law", "Verners Law", "Voice", "Raise", "Glottal Deletion", "Cluster Simplification", "Hap(lo)logy", "Low Vowel Reduction", "Stress Shift",
     "Umlaut", "final-devoicing", "Palatalisation 2", "Lenition", "a-mutation", "Syncope", "Nasal Assimilation",
 ];
 const DESCS: [&str; 8] = [
